@@ -724,3 +724,120 @@ Proof.
   - rewrite VT. reflexivity.
   - f_equal. clear ND K1 InP OutP. induction (wpath w) as [|s r IH]; cbn [first_tagged]; [reflexivity|]. rewrite VT, IH. reflexivity.
 Qed.
+
+(* ---------------------------------------------------------------- the repaired answers: every flavor *)
+
+(* what a freshly loaded instance holds: every stack of the path, and every flavor it holds agrees *)
+Lemma loaded_all tick w loc u fl w1 m :
+  clock_strict tick -> INV w -> NoDup (wpath w) -> u <> upsdb -> loc = u \/ loc = upsdb ->
+  load tick repaired w loc u fl = (w1, m) ->
+  map fst m = wpath w /\ w_db w1 = w_db w /\ w_uc w1 = w_uc w /\
+  (forall s, In s (wpath w) -> exists ps, alookup s m = Some ps /\
+     (forall f, In f (fallbacks fl) -> alookup f (ps_lookup ps) <> None) /\
+     (forall f fd, alookup f (ps_lookup ps) = Some fd ->
+        agree fd (w_db w) s f /\ uagree fd (w_db w) (w_uc w) (owner loc) s f)) /\
+  (forall s, ~ In s (wpath w) -> alookup s m = None /\ has_stack (w_db w) s = false).
+Proof.
+  intros CS I ND Hu Hl El.
+  destruct (load_ok tick w loc u fl w1 m CS I ND Hu Hl El) as [I1 [D1 [U1 [K1 L1]]]].
+  split; [exact K1|]. split; [exact D1|]. split; [exact U1|]. split.
+  - intros s Hs. rewrite <- K1 in Hs. apply In_akeys_alookup in Hs.
+    destruct (alookup s m) as [ps|] eqn:Es; [|congruence]. destruct (L1 s ps Es) as [[A [U _]] Y].
+    exists ps. split; [reflexivity|]. split; [exact Y|]. intros f fd Ef. rewrite <- D1, <- U1.
+    split; [exact (A _ _ Ef)|]. intro n.
+    apply (ugood_uagree_n fd (w_db w1) (w_uc w1) (owner loc) s f n (A _ _ Ef n)). apply (U _ _ Ef).
+  - intros s Hs. split.
+    + destruct (alookup s m) eqn:Es; [|reflexivity]. exfalso. apply Hs. rewrite <- K1.
+      change (In s (akeys m)). apply alookup_not_None_In. congruence.
+    + rewrite <- has_stack_path. apply mem_str_not_In. exact Hs.
+Qed.
+
+(* whatever flavor is asked about: the stack answers for the flavors it holds, the files for the others *)
+Lemma coherent_load_served tick w loc u fl q :
+  clock_strict tick -> reachable tick repaired w -> u <> upsdb -> loc = u \/ loc = upsdb ->
+  q_served (fst (load tick repaired w loc u fl)) (snd (load tick repaired w loc u fl)) q = q_db w q.
+Proof.
+  intros CS R Hu Hl. destruct (reachable_inv tick w CS R) as [I ND].
+  destruct (load tick repaired w loc u fl) as [w1 m] eqn:El. cbn [fst snd].
+  destruct (loaded_all tick w loc u fl w1 m CS I ND Hu Hl El) as [K1 [D1 [U1 [InP OutP]]]].
+  unfold q_served, q_db. rewrite K1. fold (wpath w).
+  apply q_eval_ext.
+  - intros s n v. unfold srv_decl. destruct (in_dec str_eq_dec s (wpath w)) as [Hs|Hs].
+    + destruct (InP s Hs) as [ps [E1 [_ A]]]. rewrite E1.
+      destruct (alookup (q_flavor q) (ps_lookup ps)) as [fd|] eqn:E2; [apply (proj1 (A _ _ E2) n)|rewrite D1; reflexivity].
+    + destruct (OutP s Hs) as [E1 E2]. rewrite E1. symmetry. apply db_decl_no_stack. exact E2.
+  - intros s n t. unfold srv_tag. destruct (in_dec str_eq_dec s (wpath w)) as [Hs|Hs].
+    + destruct (InP s Hs) as [ps [E1 [_ A]]]. rewrite E1.
+      destruct (alookup (q_flavor q) (ps_lookup ps)) as [fd|] eqn:E2; [apply (proj1 (A _ _ E2) n)|rewrite D1; reflexivity].
+    + destruct (OutP s Hs) as [E1 E2]. rewrite E1. symmetry. apply db_tag_no_stack. exact E2.
+Qed.
+
+Definition uq_tag (q : uquery) : str :=
+  match q with UQHasTag _ _ _ t _ | UQTagged _ _ t _ | UQFindTagged _ t _ => t end.
+
+(* the user tags of the asking user, for a flavor he consults or for a tag name that no chain file of a
+   stack bears (Database.getChainFile looks there first) *)
+Lemma ucoherent_load_served tick w u fl q :
+  clock_strict tick -> reachable tick repaired w -> u <> upsdb ->
+  In (uq_flavor q) (fallbacks fl) \/ (forall s n, db_cfile (w_db w) s (n, uq_tag q) = None) ->
+  uq_served (fst (load tick repaired w u u fl)) (snd (load tick repaired w u u fl)) u q = uq_db w u q.
+Proof.
+  intros CS R Hu Hq. destruct (reachable_inv tick w CS R) as [I ND].
+  destruct (load tick repaired w u u fl) as [w1 m] eqn:El. cbn [fst snd].
+  destruct (loaded_all tick w u u fl w1 m CS I ND Hu (or_introl eq_refl) El) as [K1 [D1 [U1 [InP OutP]]]].
+  rewrite (owner_user u Hu) in InP.
+  unfold uq_served, uq_db. rewrite K1. fold (wpath w).
+  set (f := uq_flavor q) in *. set (t := uq_tag q) in *.
+  assert (HD : forall s n v, srv_decl w1 m s n v f = db_decl (w_db w) s n v f).
+  { intros s n v. unfold srv_decl. destruct (in_dec str_eq_dec s (wpath w)) as [Hs|Hs].
+    - destruct (InP s Hs) as [ps [E1 [_ A]]]. rewrite E1.
+      destruct (alookup f (ps_lookup ps)) as [fd|] eqn:E2; [apply (proj1 (A _ _ E2) n)|rewrite D1; reflexivity].
+    - destruct (OutP s Hs) as [E1 E2]. rewrite E1. symmetry. apply db_decl_no_stack. exact E2. }
+  (* what is served for (s, n): the visible tag of the tag directory when the flavor is held, else the fall-back *)
+  assert (HU : forall fb s n,
+            (In s (wpath w) -> fb s n t f = uc_tag (w_uc w) u s n t f) ->
+            srv_utag fb m s n t f = vis_u (w_db w) (w_uc w) (Some u) s n t f \/
+            srv_utag fb m s n t f = uc_tag (w_uc w) u s n t f).
+  { intros fb s n Hfb. unfold srv_utag. destruct (in_dec str_eq_dec s (wpath w)) as [Hs|Hs].
+    - destruct (InP s Hs) as [ps [E1 [_ A]]]. rewrite E1.
+      destruct (alookup f (ps_lookup ps)) as [fd|] eqn:E2; [left; apply (proj2 (A _ _ E2) n)|right; apply Hfb; exact Hs].
+    - destruct (OutP s Hs) as [E1 E2]. rewrite E1. left. symmetry. apply no_decl_no_vis.
+      intro v. apply db_decl_no_stack. exact E2. }
+  assert (VT : forall fb s n, (In s (wpath w) -> fb s n t f = uc_tag (w_uc w) u s n t f) ->
+            vis_tag (srv_decl w1 m) (srv_utag fb m) s n t f =
+            vis_tag (db_decl (w_db w)) (fun s n t f => uc_tag (w_uc w) u s n t f) s n t f).
+  { intros fb s n Hfb. unfold vis_tag. destruct (HU fb s n Hfb) as [E|E]; rewrite E.
+    - unfold vis_u. destruct (uc_tag (w_uc w) u s n t f) as [v|]; [|reflexivity].
+      destruct (db_decl (w_db w) s n v f) eqn:Ed; cbn [is_some]; [|reflexivity]. rewrite HD, Ed. reflexivity.
+    - destruct (uc_tag (w_uc w) u s n t f) as [v|]; [|reflexivity]. rewrite HD. reflexivity. }
+  (* where the fall-back of findTaggedProduct is consulted -- a stack of the path that does not hold the flavor --
+     it is the tag directory, by the hypothesis *)
+  assert (FB : forall s n, srv_utag (ufile_tag w1 u) m s n t f =
+                           srv_utag (fun s n t f => uc_tag (w_uc w) u s n t f) m s n t f).
+  { intros s n. unfold srv_utag. destruct (alookup s m) as [ps|] eqn:E1; [|reflexivity].
+    destruct (alookup f (ps_lookup ps)) as [fd|] eqn:E2; [reflexivity|].
+    assert (Hs : In s (wpath w)).
+    { rewrite <- K1. change (In s (akeys m)). apply alookup_not_None_In. congruence. }
+    destruct Hq as [Hf|Hc].
+    - exfalso. destruct (InP s Hs) as [ps' [E1' [L _]]]. rewrite E1 in E1'. inversion E1'. subst ps'.
+      apply (L f Hf). exact E2.
+    - unfold ufile_tag. rewrite D1, (Hc s n), U1. reflexivity. }
+  assert (VT2 : forall s n, vis_tag (srv_decl w1 m) (srv_utag (ufile_tag w1 u) m) s n t f =
+            vis_tag (db_decl (w_db w)) (fun s n t f => uc_tag (w_uc w) u s n t f) s n t f).
+  { intros s n. unfold vis_tag at 1. rewrite FB.
+    apply (VT (fun s n t f => uc_tag (w_uc w) u s n t f) s n). reflexivity. }
+  destruct q as [s n v t0 f0|s n t0 f0|n t0 f0]; cbn [uq_flavor uq_tag] in f, t; subst f t; cbn [uq_eval].
+  - (* product.tags: the fall-back is the tag directory itself *)
+    rewrite HD. f_equal.
+    destruct (HU (fun s n t f => uc_tag (w_uc w1) u s n t f) s n) as [E|E];
+      [intros; rewrite U1; reflexivity| |]; rewrite E; [|reflexivity].
+    unfold vis_u. destruct (db_decl (w_db w) s n v f0) eqn:Ed; cbn [is_some andb]; [|reflexivity].
+    destruct (uc_tag (w_uc w) u s n t0 f0) as [v'|]; cbn [opt_str_eqb]; [|reflexivity].
+    destruct (str_eqb_spec v' v) as [->|N].
+    + rewrite Ed. cbn [is_some opt_str_eqb]. apply str_eqb_refl.
+    + destruct (is_some (db_decl (w_db w) s n v' f0)); cbn [opt_str_eqb]; [|reflexivity].
+      destruct (str_eqb_spec v' v); [contradiction|reflexivity].
+  - rewrite VT2. reflexivity.
+  - f_equal. clear ND K1 InP OutP HU VT FB. induction (wpath w) as [|s r IH]; cbn [first_tagged]; [reflexivity|].
+    rewrite VT2, IH. reflexivity.
+Qed.
